@@ -3,6 +3,7 @@
 use crate::prng::Prng;
 use crate::report::Report;
 
+pub mod c01;
 pub mod c03;
 pub mod c04;
 pub mod c05;
@@ -33,8 +34,11 @@ pub trait Monitor {
     fn finish(&mut self, _rep: &mut Report) {}
 }
 
-pub fn make(prop: &str) -> Option<Box<dyn Monitor>> {
+pub fn make(prop: &str, flavour: &str) -> Option<Box<dyn Monitor>> {
+    let _ = flavour;
     match prop {
+        "C01" => Some(Box::new(c01::C01::new(c01::Which::C01, flavour))),
+        "C02" => Some(Box::new(c01::C01::new(c01::Which::C02, flavour))),
         "C03" => Some(Box::new(c03::C03::new())),
         "C04" => Some(Box::new(c04::C04::new())),
         "C05" => Some(Box::new(c05::C05::new())),
